@@ -18,7 +18,9 @@ RULE = ("pairwise-distinct point clouds (3..30 points; scatter / jittered grid /
         "None/0/small), undamped VectorSpline2D (Poisson ratio in [-1,1] incl. end points), KNeighbors(k=1), Linear and Cubic "
         "(rescale on/off; non-collinear clouds only), Chain(Trend, Spline), Chain(Trend, KNeighbors), Chain(Trend, Linear), "
         "Vector(Spline, Spline), Vector(KNeighbors, Cubic), Chain(Vector(Trend, Trend), VectorSpline2D), all fitted and predicted "
-        "at the same points; a fixed stream of 4 thin two-cluster layouts x {Linear, Cubic}(rescale=False) (known finding F17: NaN at "
+        "at the same points; every stream has a 'prefit' variant in which the SAME estimator instance (or composite) is first fitted "
+        "to a different cloud with fewer or more points (VectorSpline2D, which documents that it keeps its first force locations, "
+        "gets them explicitly there); a fixed stream of 4 thin two-cluster layouts x {Linear, Cubic}(rescale=False) (known finding F17: NaN at "
         "a data point); Trend of degree 0..4 fitted to a random polynomial of total degree <= N and evaluated at OTHER points. "
         "Coq evaluates on exact dyadics |predict - truth| <= 1e3 * 2^-52 * kappa * max|truth| (kappa = condition number of the "
         "column-scaled system from numpy SVD, passed exactly; kappa > 1e12 -> counted skip); for the least-squares interpolators "
@@ -76,11 +78,33 @@ def kappa_scaled(A):
     return np.inf if (s[-1] == 0 or A.shape[0] < A.shape[1]) else float(s[0] / s[-1])
 
 
-def mk_repro(expr, coords, data):
+def _lit(data):
+    return ("tuple(np.array(x) for x in %r)" % (tolist(data),)) if isinstance(data, tuple) else "np.array(%r)" % (tolist(data),)
+
+
+def mk_repro(expr, coords, data, prefit=None):
+    pre = ""
+    if prefit is not None:
+        pre = "est.fit(tuple(np.array(x) for x in %r), %s); " % (tolist(prefit[0]), _lit(prefit[1]))
     return ("import numpy as np, verde as vd, warnings; warnings.simplefilter('ignore'); "
-            "c = tuple(np.array(x) for x in %r); d = %s; est = %s; est.fit(c, d); p = est.predict(c); "
-            "print(np.max(np.abs(np.ravel(p) - np.ravel(d))))"
-            % (tolist(coords), ("tuple(np.array(x) for x in %r)" % (tolist(data),)) if isinstance(data, tuple) else "np.array(%r)" % (tolist(data),), expr))
+            "c = tuple(np.array(x) for x in %r); d = %s; est = %s; %sest.fit(c, d); p = est.predict(c); "
+            "print(np.max(np.abs(np.ravel(p) - np.ravel(d))))" % (tolist(coords), _lit(data), expr, pre))
+
+
+def other_set(rnd, n, vec, collinear_ok=True):
+    """a DIFFERENT data set (fewer or more points) the same estimator instance is fitted to BEFORE the measured fit:
+    nothing of it may survive in the second fit"""
+    n0 = max(4, n // 2) if rnd.random() < 0.5 else n + rnd.randint(3, 10)
+    if n0 == n:
+        n0 += 1
+    e, nn, _, _ = cloud(rnd, n0, collinear_ok)
+    if vec:
+        return (e, nn), (rdata(rnd, n0), rdata(rnd, n0))
+    return (e, nn), rdata(rnd, n0)
+
+
+def fc_literal(coords):
+    return "(np.array(%r), np.array(%r))" % (np.ravel(coords[0]).tolist(), np.ravel(coords[1]).tolist())
 
 
 def flat(x):
@@ -89,11 +113,13 @@ def flat(x):
     return np.ravel(x)
 
 
-def run(expr, coords, data):
+def run(expr, coords, data, prefit=None):
     import verde as vd
     est = eval(expr, {"vd": vd, "np": np})
     with warnings.catch_warnings():
         warnings.simplefilter("ignore")
+        if prefit is not None:
+            est.fit(prefit[0], prefit[1])
         est.fit(coords, data)
         pred = est.predict(coords)
     return est, pred
@@ -109,24 +135,30 @@ def spline_case(rnd, i, vector):
     if vector:
         poisson = rnd.choice([-1.0, 1.0, 0.5, 0.0]) if i % 3 == 0 else rnd.uniform(-1, 1)
         mind = scale * 10.0 ** rnd.uniform(-3, -0.5)
-        expr = "vd.VectorSpline2D(poisson=%r, mindist=%r)" % (poisson, mind)
         arrs = shape2d(rnd, [e, nn, rdata(rnd, n), rdata(rnd, n)])
         coords, data = (arrs[0], arrs[1]), (arrs[2], arrs[3])
+        # VectorSpline2D documents that it keeps the force locations of its FIRST fit: in the prefit variant the
+        # forces are therefore given explicitly (at the measured points) so that the documented memory is not an alarm
+        expr = "vd.VectorSpline2D(poisson=%r, mindist=%r%s)" % (poisson, mind, (", force_coords=" + fc_literal(coords)) if i % 2 else "")
     else:
         mind = rnd.choice([None, None, 0.0, 1e-6 * scale, 1e-2 * scale])
         expr = "vd.Spline(mindist=%r)" % (mind,)
         arrs = shape2d(rnd, [e, nn, rdata(rnd, n)])
         coords, data = (arrs[0], arrs[1]), arrs[2]
-    est, pred = run(expr, coords, data)
+    prefit = other_set(rnd, n, vector) if i % 2 else None
+    est, pred = run(expr, coords, data, prefit)
+    # certificate: Jacobian for the estimator's CURRENT force coordinates; conditioning (tolerance / skip): the system
+    # the user configured - forces at the measured points - so that stale state cannot hide behind a skip
     fc = est.force_coords if vector else est.force_coords_
     A = np.array(est.jacobian(coords, fc), dtype=float)
-    kap = kappa_scaled(A)
+    kap = kappa_scaled(np.array(est.jacobian(coords, tuple(np.ravel(c) for c in coords)), dtype=float))
     d = flat(data)
     p = np.array(est.force_, dtype=float)
-    stream = "vector-spline" if vector else "spline"
-    inp = {"estimator": expr, "coordinates": tolist(coords), "data": tolist(data), "layout": layout}
-    out = {"max_abs_misfit": float(np.max(np.abs(flat(pred) - d))), "kappa": kap}
-    repro = mk_repro(expr, coords, data)
+    stream = ("vector-spline" if vector else "spline") + ("-prefit" if prefit is not None else "")
+    inp = {"estimator": expr, "coordinates": tolist(coords), "data": tolist(data), "layout": layout,
+           "fitted_before_to": None if prefit is None else {"coordinates": tolist(prefit[0]), "data": tolist(prefit[1])}}
+    out = {"max_abs_misfit": float(np.max(np.abs(flat(pred) - d))), "kappa": kap, "n_forces": int(p.size)}
+    repro = mk_repro(expr, coords, data, prefit)
     if not kap <= KAPPA_MAX:
         return skip_case(inp, out, repro, stream)
     term = "c01_ls_exact %s %s %s %s %s %s (0,0)%%Z %s %s" % (
@@ -140,12 +172,14 @@ def knn_case(rnd, i):
     arrs = shape2d(rnd, [e, nn, rdata(rnd, n)])
     coords, data = (arrs[0], arrs[1]), arrs[2]
     expr = "vd.KNeighbors(k=1)" if i % 2 else "vd.KNeighbors()"
-    est, pred = run(expr, coords, data)
+    prefit = other_set(rnd, n, False) if i % 4 >= 2 else None
+    est, pred = run(expr, coords, data, prefit)
     ok_shape = np.shape(pred) == np.shape(data)
     term = "c01_knn %s %s %s %s" % (dl(coords[0]), dl(coords[1]), dl(data), dl(pred) if ok_shape else "[]")
-    return Case({"estimator": expr, "coordinates": tolist(coords), "data": tolist(data), "layout": layout},
+    return Case({"estimator": expr, "coordinates": tolist(coords), "data": tolist(data), "layout": layout,
+                 "fitted_before_to": None if prefit is None else {"coordinates": tolist(prefit[0]), "data": tolist(prefit[1])}},
                 {"max_abs_misfit": float(np.max(np.abs(flat(pred) - flat(data)))), "shape_ok": bool(ok_shape)},
-                term, mk_repro(expr, coords, data), "kneighbors", nontrivial=n > 1)
+                term, mk_repro(expr, coords, data, prefit), "kneighbors" + ("-prefit" if prefit is not None else ""), nontrivial=n > 1)
 
 
 def scipy_case(rnd, i):
@@ -155,17 +189,20 @@ def scipy_case(rnd, i):
     coords, data = (arrs[0], arrs[1]), arrs[2]
     kind = ["Linear", "Cubic"][i % 2]
     expr = "vd.%s(rescale=%r)" % (kind, bool((i // 2) % 2))
-    inp = {"estimator": expr, "coordinates": tolist(coords), "data": tolist(data), "layout": layout}
-    repro = mk_repro(expr, coords, data)
+    prefit = other_set(rnd, n, False, collinear_ok=False) if i % 8 >= 4 else None
+    inp = {"estimator": expr, "coordinates": tolist(coords), "data": tolist(data), "layout": layout,
+           "fitted_before_to": None if prefit is None else {"coordinates": tolist(prefit[0]), "data": tolist(prefit[1])}}
+    repro = mk_repro(expr, coords, data, prefit)
     try:
-        est, pred = run(expr, coords, data)
+        est, pred = run(expr, coords, data, prefit)
     except Exception as exc:   # QhullError on (numerically) degenerate input: not an exactness statement
         return Case(inp, {"raised": type(exc).__name__}, "Vskip", repro, kind.lower() + "/skip-qhull-error", nontrivial=False)
     pf = flat(pred)
     if not np.all(np.isfinite(pf)):
         return Case(inp, {"non_finite_predictions": int(np.sum(~np.isfinite(pf)))}, "Vviol", repro, kind.lower() + "/nan-at-data-point")
     term = "c01_passthrough %s %s" % (dl(data), dl(pf))
-    return Case(inp, {"max_abs_misfit": float(np.max(np.abs(pf - flat(data))))}, term, repro, kind.lower(), nontrivial=True)
+    return Case(inp, {"max_abs_misfit": float(np.max(np.abs(pf - flat(data))))}, term, repro,
+                kind.lower() + ("-prefit" if prefit is not None else ""), nontrivial=True)
 
 
 COMPOSITES = [
@@ -192,11 +229,16 @@ def composite_case(rnd, i):
     else:
         arrs = shape2d(rnd, [e, nn, rdata(rnd, n)])
         coords, data = (arrs[0], arrs[1]), arrs[2]
-    stream = "composite/" + expr.split("(")[0].replace("vd.", "") + "-" + (last or "knn")
-    inp = {"estimator": expr, "coordinates": tolist(coords), "data": tolist(data), "layout": layout}
-    repro = mk_repro(expr, coords, data)
+    # every second round of the composite list: the same composite instance is first fitted to another data set
+    prefit = other_set(rnd, n, vec, collinear_ok=(last != "scipy")) if (i // len(COMPOSITES)) % 2 else None
+    if prefit is not None and last == "vspline":   # documented memory of VectorSpline2D: give the forces explicitly
+        expr = expr.replace("mindist=%r)" % (scale * 0.05), "mindist=%r, force_coords=%s)" % (scale * 0.05, fc_literal(coords)))
+    stream = "composite/" + expr.split("(")[0].replace("vd.", "") + "-" + (last or "knn") + ("-prefit" if prefit is not None else "")
+    inp = {"estimator": expr, "coordinates": tolist(coords), "data": tolist(data), "layout": layout,
+           "fitted_before_to": None if prefit is None else {"coordinates": tolist(prefit[0]), "data": tolist(prefit[1])}}
+    repro = mk_repro(expr, coords, data, prefit)
     try:
-        est, pred = run(expr, coords, data)
+        est, pred = run(expr, coords, data, prefit)
     except Exception as exc:
         if last == "scipy":
             return Case(inp, {"raised": type(exc).__name__}, "Vskip", repro, stream + "/skip-qhull-error", nontrivial=False)
@@ -254,7 +296,13 @@ def trend_poly_case(rnd, i):
     truth, mag_q = poly(qe, qn)
     arrs = shape2d(rnd, [e, nn, data])
     coords = (arrs[0], arrs[1])
-    est = vd.Trend(degree).fit(coords, arrs[2])
+    est = vd.Trend(degree)
+    prefit = other_set(rnd, n, False) if i % 10 >= 5 else None
+    if prefit is not None:
+        with warnings.catch_warnings():
+            warnings.simplefilter("ignore")
+            est.fit(prefit[0], prefit[1])
+    est.fit(coords, arrs[2])
     pred = est.predict((qe, qn))
     A = np.array(est.jacobian(coords), dtype=float)
     kap = kappa_scaled(A)
@@ -263,12 +311,14 @@ def trend_poly_case(rnd, i):
     out = {"max_abs_error_off_data": float(np.max(np.abs(pred - truth))), "kappa": kap}
     repro = ("import numpy as np, verde as vd; c = tuple(np.array(x) for x in %r); d = np.array(%r); q = tuple(np.array(x) for x in %r); "
              "print(vd.Trend(%d).fit(c, d).predict(q) - np.array(%r))" % (tolist(coords), tolist(arrs[2]), [qe.tolist(), qn.tolist()], degree, truth.tolist()))
+    if prefit is not None:
+        inp["fitted_before_to"] = {"coordinates": tolist(prefit[0]), "data": tolist(prefit[1])}
     if not kap <= KAPPA_MAX:
         return skip_case(inp, out, repro, "trend-polynomial")
     scale_mag = float(max(mag_fit.max(), mag_q.max()))
     term = "c01_ls_exact %s %s %s %s %s %s %s %s %s" % (
         cN(A.shape[1]), dmat(A), dl(data), dl(est.coef_), cD(CFACTOR), cD(kap), cD(scale_mag), dl(truth), dl(pred))
-    return Case(inp, out, term, repro, "trend-polynomial", nontrivial=True)
+    return Case(inp, out, term, repro, "trend-polynomial" + ("-prefit" if prefit is not None else ""), nontrivial=True)
 
 
 def generate(tier, seed):
